@@ -57,6 +57,8 @@ def run_program(arg):
     modes["eager"] = res
     # (2) model proto on ORT, (3) a model calling the function proto
     for mode in ("model", "call"):
+        if mode == "model" and scriptgen.uses(prog, "attr"):
+            continue  # "A function with attributes cannot be exported as a model" (documented): not run
         res = []
         try:
             m = f.to_model_proto() if mode == "model" else scriptgen.call_model(f)
@@ -78,6 +80,36 @@ def run_program(arg):
         modes[mode] = res
     out["modes"] = modes
     return out
+
+
+_BASE = __import__("re").compile(r"_\d+$")
+
+
+def _walk(graph, out):
+    for node in graph:
+        if node.op_type in ("If", "Loop"):
+            out.append([node.op_type, sorted(_BASE.sub("", o.name) for o in node.outputs)])
+            for name in (("then_branch", "else_branch") if node.op_type == "If" else ("body",)):
+                a = node.attributes.get(name)
+                if a is not None:
+                    _walk(a.as_graph(), out)
+
+
+def structure_of(arg):
+    """cheap stage: decorate only; returns the If-output / Loop-state selections of the emitted graph in pre-order"""
+    prog, ret = arg
+    src = scriptgen.program_src(prog, ret, 0)
+    try:
+        mod = scriptgen.load_source(src, "c01s")
+        out = []
+        _walk(mod.f.function_ir.graph, out)
+        return out
+    except Exception as e:
+        return f"REFUSED {type(e).__name__}: {str(e)[:120]}"
+
+
+def structure_chunk(chunk):
+    return [structure_of(a) for a in chunk]
 
 
 def select(ctx, states, n_quick):
@@ -161,7 +193,23 @@ def run(ctx: core.Ctx):
     if vac.ok:
         raise core.MachineryError("vacuity: no accepted program with an if inside a for loop is reachable")
     ctx.set("spec_programs", len(states))
-    chosen = select(ctx, states, 1500)
+    # stage 1 (cheap, wide): the structure the real converter emits (which variables each If exports / each Loop
+    # carries) against the selections Script.tla computes, for EVERY derived program the model accepts.
+    # A disagreement is not a verdict - it makes the program a suspect that stage 2 runs end to end.
+    cand = [s for s in states if not s["refused"]]
+    chunks = [cand[i:i + 200] for i in range(0, len(cand), 200)]
+    structs = [x for ch in core.pmap(structure_chunk, [[(s["prog"], list(s["ret"])) for s in ch] for ch in chunks], chunksize=1) for x in ch]
+    suspects = []
+    for s, real in zip(cand, structs):
+        want = [[e["k"], sorted(e["vs"])] for e in s["info"]["sel"]]
+        if real != want:
+            suspects.append(s)
+            ctx.add("structure_disagreements")
+            if len(suspects) <= 5:
+                print(f"SPEC-MISMATCH C01 structure: model {want} impl {real}\n{scriptgen.program_src(s['prog'], list(s['ret']))}")
+    ctx.set("structure_checked", len(cand))
+    ctx.add("structure_disagreements", 0)
+    chosen = suspects[:400] + select(ctx, states, 1100)
     args = [(i, s["prog"], list(s["ret"]), (i % len(scriptgen.NAME_SCHEMES)) if i % 4 == 3 else 0,
              [r["py"][0] == "ok" for r in s["res"]]) for i, s in enumerate(chosen)]
     results = core.pmap_safe(run_program, args, timeout=90)
